@@ -60,8 +60,14 @@ def generate(ck, tier):
         vlib.tlc_ok(res4, "fifo rel+pr budget 2")
         ck.add_tlc(res4, "fifo/rel+pr budget2 (liveness + pairs)")
         mixed += [s for s in sc.schedules_from(p4) if len(s) == 2]
-    global WINDOW_SCHEDS, TRIPLES
+    global WINDOW_SCHEDS, TRIPLES, BURST_SCHEDS
     WINDOW_SCHEDS = sc.gen_window_schedules(ck, tier)
+    # a burst of one-chunk messages with a T3 timer that marks only RtxBurst chunks per expiry (the rest is
+    # re-timed): single faults incl. an outage of the path that swallows the burst
+    p6 = os.path.join(ck.dir, f"sched_burst_{tier}_{os.getpid()}.ndjson")
+    sc.tlc_mc_split(ck, "fifo_burst", "fifo/burst of 3 one-chunk messages, RtxBurst 1", p6, mode="fifo", budget=1,
+                    msgs="MsgsA111", init_a="{14}", init_b="{0}", win=3, rtx_burst=1, max_rtx=4, timeout=600)
+    BURST_SCHEDS = sc.schedules_from(p6)
     if tier == "thorough":
         # three faults: random behaviours of the budget-3 model (G-sim), invariants checked along the way
         p5 = os.path.join(ck.dir, f"sched_b3_{tier}_{os.getpid()}.ndjson")
@@ -75,6 +81,7 @@ def generate(ck, tier):
 
 WINDOW_SCHEDS = []
 TRIPLES = []
+BURST_SCHEDS = []
 TSN_SPACES = [None, {"init_tsn_a": WRAP_A, "init_tsn_b": 7000}, {"init_tsn_a": 1000, "init_tsn_b": 500000},
               {"init_tsn_a": 500000, "init_tsn_b": 1000}, {"init_tsn_a": WRAP_A, "init_tsn_b": WRAP_B}]
 
@@ -156,6 +163,21 @@ def build_scenarios(singles, pairs, mixed, tier):
         s["restart_init_from"] = "A"
         s["ext_only"] = "peer restart (new INIT with a different initiate tag on an established association)"
         scen.append(s)
+    # bursts of 7..12 one-chunk messages and then silence (no traffic that could trigger fast retransmit): the
+    # model's 3 chunks with RtxBurst 1 stand for k*4 + r chunks with the code's burst of 4
+    for i, f in enumerate(BURST_SCHEDS):
+        n = 7 + (i % 6)
+        g = []
+        for x in f:
+            y = dict(x)
+            if y["k"] == "DATA" and "t" in y:
+                y["t"] = [0, 1, n - 1][min(y["t"], 2)] if y["kind"] != "outage" else [0, 1, 2][min(y["t"], 2)]
+            if y.get("ak") == "DATA" and "at" in y:
+                y["at"] = [0, 1, n - 1][min(y["at"], 2)]
+            g.append(y)
+        msgs = [{"from": "A", "sid": 1, "len": rng.choice([900, 1100, 1172])} for _ in range(n)]
+        msgs += [{"from": "A", "sid": 1, "len": 5, "phase": 2}, {"from": "B", "sid": 1, "len": 5, "phase": 2}]
+        scen.append(sc.scenario(f"u{i:03d}", g, [sc.chan(1)], msgs))
     # a closing / closed receive window with delayed or late-duplicated SACKs (stale zero-window SACK)
     scen += sc.window_scenarios(WINDOW_SCHEDS, rng, limit=40 if tier == "quick" else 400, seed=vlib.seed() + 31)
     for i, f in enumerate([[]] + mixed):
